@@ -92,7 +92,7 @@ def run_property(ctx, pid, n_quick=400, n_thorough=6000, seg_p=0.5, fields=None,
             sig = None
             if prop == pid:
                 sig = "%s:%s" % (pid, line.split()[0] if line else "init")
-            elif pid == "C10" and prop in ("C04", "C05", "C06"):
+            elif pid == "C10" and prop in ("C01", "C02", "C03", "C04", "C05", "C06", "C11"):
                 # ids recomputed in mid-session (enable_features(['track_id'/'lineage_id']) on an enabled
                 # feature renumbers them) and a later undo / redo re-applies ids of the old numbering
                 k = ops.index(line) if line in ops else len(ops)
